@@ -67,6 +67,10 @@ Unary(x) ==
                   i \in {k \in 1..Len(IndexForms): FormOK(IndexForms[k], s[1]) /\ IndexForms[k].t # "list"}}
           ELSE {})
     \cup (IF "op_densify" \in Acts THEN {N("op_densify", <<x>>, NoP)} ELSE {})
+    \cup (IF "op_rdiv" \in Acts /\ ShapeOf(x)[1] = ShapeOf(x)[2] /\ ShapeOf(x)[1] <= 3
+          THEN IF MIsSingular(Denote(x)) THEN {}
+               ELSE {N("op_rdiv", <<x>>, Scalars[i]): i \in {j \in 1..Len(Scalars): ~QIsZero(Scalars[j].c)}}
+          ELSE {})
     \cup (IF "op_scalar" \in Acts
           THEN UNION {{N("op_smul", <<x>>, Scalars[i]), N("op_rsmul", <<x>>, Scalars[i])}: i \in 1..Len(Scalars)}
                \cup {N("op_div", <<x>>, Scalars[i]): i \in {j \in 1..Len(Scalars): ~QIsZero(Scalars[j].c)}}
@@ -99,15 +103,17 @@ Ternary(x, o1, o2) ==
 Accept(n) == IF WellFormed(n) THEN Fits(n)
              ELSE "errors" \in Acts /\ n.k \in {"op_matmul", "op_add", "op_sub", "op_sum", "Product", "Sum"}
 \* results that are arrays, not operators: nothing can be applied to them
-Terminal(n) == n.k \in {"op_getitem", "op_densify"}
+Terminal(n) == \/ n.k \in {"op_getitem", "op_densify"}
+               \/ n.k = "op_matmul" /\ \E i \in 1..Len(n.a): n.a[i].k = "Array"
 
 Step(n) == /\ ok /\ lvl < MaxLvl
            /\ Accept(n)
            /\ t' = n /\ lvl' = lvl + 1 /\ ok' = (WellFormed(n) /\ ~Terminal(n))
 
-Next == \/ \E n \in Unary(t): Step(n)
-        \/ \E o \in Ops: \E n \in Binary(t, o): Step(n)
-        \/ \E o1 \in Small: \E o2 \in Small: \E n \in Ternary(t, o1, o2): Step(n)
+Next == /\ ok /\ lvl < MaxLvl
+        /\ \/ \E n \in Unary(t): Step(n)
+           \/ \E o \in Ops: \E n \in Binary(t, o): Step(n)
+           \/ \E o1 \in Small: \E o2 \in Small: \E n \in Ternary(t, o1, o2): Step(n)
 
 Spec == Init /\ [][Next]_vars
 
